@@ -196,6 +196,19 @@ CHECKS = {
              "unresolved paths); `where(..)` is not a documented spelling and is not claimed.",
         technique="TLA+ spec (Attrs: merge as a fold, equivalence classes) + TLC enumeration, in-process replay of every class",
         design="4 (C17)"),
+    "C19": dict(
+        text="TLC checks Determinism.tla (compiler processes x hash seeds x expansion histories): with a fixed hasher and no "
+             "shared state the output is a function of the input (invariant Function, action property Stable); the same model "
+             "with a seeded hasher or shared state violates them (both checked, so the property is not vacuous). The real "
+             "expanders (working-tree sources) run in 4 (quick) / 16 (thorough) fresh processes - each with its own RandomState "
+             "seeds - over hashed-collection stress inputs (TryInto, FromStr, Mul-like where-clauses, Error bounds) and one input "
+             "per code path of every derive, in different orders and repeatedly within a process; the recorded {pid, seq, input, "
+             "digest} events are validated by TLC (Trace_Determinism binds the unlogged function input -> digest at first "
+             "sight). Thorough: two separate rustc runs of the real proc-macro (-Zunpretty=expanded) compared byte-wise.",
+        note="sampled inputs, not all inputs; nondeterminism that needs more than 16 processes to show a second ordering would "
+             "be missed (a seeded std HashMap shows within 2).",
+        technique="TLA+ spec (Determinism) + trace validation of expansion digests across processes and orders",
+        design="4 (C19)"),
 }
 
 NOT_YET = {}
